@@ -54,19 +54,21 @@ Definition obs_eqb (a b : obs) : bool :=
 
 (* the rule set a history denotes: an operation counts iff no later operation has the
    same (normalised) key; it contributes its rule iff it is an insert *)
-Fixpoint current_rules (t : ctab) (ops : list (bool * rule)%type) : list rule :=
+Fixpoint current_rules_by (same : rule -> rule -> bool) (t : ctab) (ops : list (bool * rule)%type) : list rule :=
   match ops with
   | [] => []
   | op :: rest =>
     let r := norm_rule t (snd op) in
-    (if existsb (fun o => key_eqb r (norm_rule t (snd o))) rest then [] else if fst op then [r] else [])
-    ++ current_rules t rest
+    (if existsb (fun o => same r (norm_rule t (snd o))) rest then [] else if fst op then [r] else [])
+    ++ current_rules_by same t rest
   end.
+(* access rules are identified by their parsed expressions *)
+Definition current_rules (t : ctab) := current_rules_by (tkey_eqb t) t.
 
 (* namespace inserts of an existing key are rejected: the first insert since the last
    delete stays; keys only (no permissions) *)
 Definition ns_current_rules (t : ctab) (ops : list (bool * rule)%type) : list rule :=
-  map (fun r => mk_rule (r_d r) (r_b r) (r_u r) (r_h r) 0) (current_rules t ops).
+  map (fun r => mk_rule (r_d r) (r_b r) (r_u r) (r_h r) 0) (current_rules_by key_eqb t ops).
 
 Definition fresh_so : Z := 999999999.
 Definition probe_alpha (p : list Z) : list Z :=
